@@ -105,7 +105,7 @@ def main(tier, replay, t0):
                 continue
             if c.gen[on["id"]].get("result") != "ok" or c.gen[off["id"]].get("result") != "ok":
                 continue
-            base = {"wgsl": c.wgsl, "repr": mv, "options_on": on["opt"], "options_off": off["opt"]}
+            base = {"case_id": c.id, "wgsl": c.wgsl, "repr": mv, "options_on": on["opt"], "options_off": off["opt"]}
             if not camp.module_ok(c.id, off["id"]):
                 quad["other_compile_errors"] += 1
                 continue
